@@ -1339,6 +1339,13 @@ func equal(a, b Object) (bool, error) {
 		return isSameDict(a.(Dict), b.(Dict)), nil
 	}
 
+	if ai, ok := a.(Integer); ok {
+		if bi, ok := b.(Integer); ok {
+			// compare integers exactly, instead of via float64
+			return ai == bi, nil
+		}
+	}
+
 	normalize := func(obj Object) (Object, error) {
 		switch obj := obj.(type) {
 		case Real:
